@@ -83,11 +83,14 @@ def fault_case(args):
     d0 = tempfile.mkdtemp(prefix='c8ref-', dir=root)
     acts = []
     env.rec.on_action = lambda kind, detail: acts.append((kind, detail))
+    ref_states = []
     try:
         r, extra = open_all(cfg, d0)
+        ref_states.append(table(conc.canon_state(r.state())))
         for u in units:
             for op in u:
                 execute(r, op, extra)
+            ref_states.append(table(conc.canon_state(r.state())))
         r.cache.close()
     finally:
         env.rec.on_action = None
@@ -125,13 +128,22 @@ def fault_case(args):
                     errs.append(res)
                 if fired[0] and before is None:
                     before = st0
-                    # a block whose call failed: the harness lets the block finish (the exception was caught inside)
+                    # the failed call is all-or-nothing: the table (with the bytes of every file-backed value) is the
+                    # reference state before or after this unit (a block whose inner call failed and was caught may
+                    # commit the rest of its body: not compared)
+                    if u[0]['m'] != 'tbegin' and why is None:
+                        now_t = table(conc.canon_state(r.state()))
+                        if now_t not in (ref_states[ui], ref_states[ui + 1]):
+                            why = 'after a failure injected at action %d (%s %s) the call is neither undone nor complete: %s' % (
+                                n, acts[n][0], acts[n][1], now_t[:300])
             env.rec.on_action = None
             ws = [str(w.message) for w in r.cache.check() if not str(w.message).startswith('empty directory')]
             if fired[0] and fired_unit[0] is None:
                 fired_unit[0] = len(units) - 1
             in_block = fired_unit[0] is not None and units[fired_unit[0]][0]['m'] == 'tbegin'
-            if ws:
+            if why:
+                pass
+            elif ws:
                 why = 'after a failure injected at action %d (%s %s) check() reports %s' % (n, acts[n][0], acts[n][1], ws[:2])
                 if in_block and all(w.startswith('unknown file') for w in ws):
                     why = 'D9b-probe (failed call inside a block that then commits) ' + why
